@@ -274,6 +274,10 @@ def universes(tier):
             t = TypeDef(name, "struct", [{"name": "with_default", "ty": ft, "attrs": ['default = "%s"' % fn]}, {"name": "other", "ty": "i32"}])
             t.extra_items = ["pub fn %s() -> %s { %s }" % (fn, rust_ty(ft), val)]
             add(t, desc="struct{default fn -> %s (%s) : %s}" % (val, cls, rust_ty(ft)))
+    # untagged enums mixing an Option<integer> payload (schemars: type [integer, null]) with float / bool / string payloads
+    for combo in ([("opt", "i64"), "f64", "bool"], ["f64", ("opt", "i32")], [("opt", "u8"), "String"], [("opt", "f64"), ("vec", "i32")]):
+        vs = [{"name": ["First", "SecondOne", "Third"][i], "kind": "newtype", "tys": [p]} for i, p in enumerate(combo)]
+        add(TypeDef(nm(), "enum", variants=vs, tagging="untagged"), desc="enum:untagged[newtype...](%s)" % ",".join(rust_ty(p) for p in combo))
     # self-referential root types: schemars puts the root type into `definitions` as well, under the root's own title
     def selfref(name, kind):
         if kind == "opt_box":
